@@ -1,0 +1,204 @@
+//go:build verif
+
+// Contracts for the deductive verification in /verif (govc).
+//
+// This file is comment-only and guarded by the build tag `verif`: with the tag
+// off it does not exist for the compiler; with the tag on it compiles to
+// nothing.  Contracts are keyed by function (as printed by go/ssa, package
+// prefix dropped) and loop ordinal (loop heads in block order).  Syntax and
+// semantics are described in /verif/DESIGN.md section 1.3.
+
+package spec
+
+// ===========================================================================
+// C20 — validation accessors and clear operations (validations.go, schema.go)
+// ===========================================================================
+
+//@ define sameCommon(a CommonValidations, b CommonValidations) bool =
+//@    a.Maximum == b.Maximum && a.ExclusiveMaximum == b.ExclusiveMaximum && a.Minimum == b.Minimum
+//@    && a.ExclusiveMinimum == b.ExclusiveMinimum && a.MaxLength == b.MaxLength && a.MinLength == b.MinLength
+//@    && a.Pattern == b.Pattern && a.MaxItems == b.MaxItems && a.MinItems == b.MinItems
+//@    && a.UniqueItems == b.UniqueItems && a.MultipleOf == b.MultipleOf && a.Enum == b.Enum
+
+//@ func (*CommonValidations).SetValidations
+//@   property C20
+//@   requires v != nil
+//@   assigns  *v
+//@   ensures  sameCommon(*v, val.CommonValidations)
+
+//@ func (CommonValidations).Validations
+//@   property C20
+//@   assigns  nothing
+//@   ensures  sameCommon(result.CommonValidations, v)
+//@   ensures  result.PatternProperties == nil && result.MaxProperties == nil && result.MinProperties == nil
+
+//@ define sameSchemaV(a SchemaValidations, b SchemaValidations) bool =
+//@    sameCommon(a.CommonValidations, b.CommonValidations) && a.PatternProperties == b.PatternProperties
+//@    && a.MaxProperties == b.MaxProperties && a.MinProperties == b.MinProperties
+
+//@ func (*SchemaValidations).SetValidations
+//@   property C20
+//@   requires v != nil
+//@   assigns  *v
+//@   ensures  sameSchemaV(*v, val)
+
+//@ func (SchemaValidations).Validations
+//@   property C20
+//@   assigns  nothing
+//@   ensures  sameSchemaV(result, v)
+
+// the fifteen validation keywords of a schema (draft-4 validation keywords + patternProperties), from the property text
+//@ define schemaHolds(s Schema, val SchemaValidations) bool =
+//@    s.Maximum == val.Maximum && s.ExclusiveMaximum == val.ExclusiveMaximum && s.Minimum == val.Minimum
+//@    && s.ExclusiveMinimum == val.ExclusiveMinimum && s.MaxLength == val.MaxLength && s.MinLength == val.MinLength
+//@    && s.Pattern == val.Pattern && s.MaxItems == val.MaxItems && s.MinItems == val.MinItems
+//@    && s.UniqueItems == val.UniqueItems && s.MultipleOf == val.MultipleOf && s.Enum == val.Enum
+//@    && s.MinProperties == val.MinProperties && s.MaxProperties == val.MaxProperties && s.PatternProperties == val.PatternProperties
+
+//@ func (*Schema).SetValidations
+//@   property C20
+//@   requires s != nil
+//@   assigns  s.Maximum, s.ExclusiveMaximum, s.Minimum, s.ExclusiveMinimum, s.MaxLength, s.MinLength, s.Pattern,
+//@            s.MaxItems, s.MinItems, s.UniqueItems, s.MultipleOf, s.Enum, s.MinProperties, s.MaxProperties, s.PatternProperties
+//@   ensures  schemaHolds(*s, val)
+
+//@ func (*Schema).WithValidations
+//@   property C20
+//@   requires s != nil
+//@   assigns  s.Maximum, s.ExclusiveMaximum, s.Minimum, s.ExclusiveMinimum, s.MaxLength, s.MinLength, s.Pattern,
+//@            s.MaxItems, s.MinItems, s.UniqueItems, s.MultipleOf, s.Enum, s.MinProperties, s.MaxProperties, s.PatternProperties
+//@   ensures  schemaHolds(*s, val) && result == s
+
+//@ func (Schema).Validations
+//@   property C20
+//@   assigns  nothing
+//@   ensures  schemaHolds(s, result)
+
+//@ func (*Parameter).WithValidations
+//@   property C20
+//@   requires p != nil
+//@   assigns  p.CommonValidations
+//@   ensures  sameCommon(p.CommonValidations, val) && result == p
+
+//@ func (*Header).WithValidations
+//@   property C20
+//@   requires h != nil
+//@   assigns  h.CommonValidations
+//@   ensures  sameCommon(h.CommonValidations, val) && result == h
+
+//@ func (*Items).WithValidations
+//@   property C20
+//@   requires i != nil
+//@   assigns  i.CommonValidations
+//@   ensures  sameCommon(i.CommonValidations, val) && result == i
+
+// ---- has-queries: false exactly when no keyword of the family (as the query understands it) is set
+
+//@ func (CommonValidations).HasNumberValidations
+//@   property C20
+//@   assigns nothing
+//@   ensures result == (v.Maximum != nil || v.Minimum != nil || v.MultipleOf != nil)
+
+//@ func (CommonValidations).HasStringValidations
+//@   property C20
+//@   assigns nothing
+//@   ensures result == (v.MaxLength != nil || v.MinLength != nil || v.Pattern != "")
+
+//@ func (CommonValidations).HasArrayValidations
+//@   property C20
+//@   assigns nothing
+//@   ensures result == (v.MaxItems != nil || v.MinItems != nil || v.UniqueItems)
+
+//@ func (SchemaValidations).HasObjectValidations
+//@   property C20
+//@   assigns nothing
+//@   ensures result == (v.MaxProperties != nil || v.MinProperties != nil || v.PatternProperties != nil)
+
+// ---- clear operations.  Ghost: calls(f, kw) counts the invocations of function value f with first
+// argument kw; lastArg(f, kw) is the second argument of the latest one.  Go function values are not
+// comparable, so a callback is identified with its position: fidx is the inverse of cbs.
+
+//@ specfn fidx(fn) int
+//@ define posIdent(cbs []func(string, interface{})) bool = forall i int :: 0 <= i && i < len(cbs) ==> fidx(cbs[i]) == i
+//@ define inCbs(cbs []func(string, interface{}), f fn, n int) bool = 0 <= fidx(f) && fidx(f) < n && cbs[fidx(f)] == f
+//@ define rec occ(c clearedValidations, n int, kw string) int = n <= 0 ? 0 : occ(c, n-1, kw) + (c[n-1].Validation == kw ? 1 : 0)
+//@ define rec valOf(c clearedValidations, n int, kw string) interface{} = n <= 0 ? nil : (c[n-1].Validation == kw ? c[n-1].Value : valOf(c, n-1, kw))
+
+//@ func (clearedValidations).apply
+//@   property C20
+//@   requires posIdent(cbs)
+//@   requires forall i int :: 0 <= i && i < len(cbs) ==> cbs[i] != nil
+//@   assigns  ghost(calls)
+//@   ensures  forall f fn, kw string :: calls(f, kw) == old(calls(f, kw)) + (inCbs(cbs, f, len(cbs)) ? old(occ(c, len(c), kw)) : 0)
+//@   ensures  forall f fn, kw string :: inCbs(cbs, f, len(cbs)) && old(occ(c, len(c), kw)) > 0 ==> lastArg(f, kw) == old(valOf(c, len(c), kw))
+//@   loop 0 invariant 0 <= $i0 && $i0 <= len(cbs)
+//@   loop 0 invariant forall f fn, kw string :: calls(f, kw) == old(calls(f, kw)) + (inCbs(cbs, f, $i0) ? old(occ(c, len(c), kw)) : 0)
+//@   loop 0 invariant forall f fn, kw string :: inCbs(cbs, f, $i0) && old(occ(c, len(c), kw)) > 0 ==> lastArg(f, kw) == old(valOf(c, len(c), kw))
+//@   loop 1 invariant 0 <= $i1 && $i1 <= len(c) && 0 <= $i0 && $i0 < len(cbs)
+//@   loop 1 invariant forall f fn, kw string :: calls(f, kw) == old(calls(f, kw)) + (inCbs(cbs, f, $i0) ? old(occ(c, len(c), kw)) : 0) + (f == cbs[$i0] ? old(occ(c, $i1, kw)) : 0)
+//@   loop 1 invariant forall f fn, kw string :: (inCbs(cbs, f, $i0) && old(occ(c, len(c), kw)) > 0 ==> lastArg(f, kw) == old(valOf(c, len(c), kw)))
+//@                                            && (f == cbs[$i0] && old(occ(c, $i1, kw)) > 0 ==> lastArg(f, kw) == old(valOf(c, $i1, kw)))
+
+//@ define numberWasSet(o CommonValidations, kw string) bool =
+//@    (kw == "minimum" && o.Minimum != nil) || (kw == "maximum" && o.Maximum != nil) || (kw == "multipleOf" && o.MultipleOf != nil)
+//@    || (kw == "exclusiveMaximum" && o.ExclusiveMaximum) || (kw == "exclusiveMinimum" && o.ExclusiveMinimum)
+
+//@ func (*CommonValidations).ClearNumberValidations
+//@   property C20
+//@   requires v != nil
+//@   requires posIdent(cbs)
+//@   requires forall i int :: 0 <= i && i < len(cbs) ==> cbs[i] != nil
+//@   assigns  v.Minimum, v.Maximum, v.ExclusiveMaximum, v.ExclusiveMinimum, v.MultipleOf, ghost(calls)
+//@   ensures  cleared @@ v.Minimum == nil && v.Maximum == nil && v.MultipleOf == nil && !v.ExclusiveMaximum && !v.ExclusiveMinimum
+//@   ensures  once @@ forall f fn, kw string :: calls(f, kw) == old(calls(f, kw)) + (inCbs(cbs, f, len(cbs)) && numberWasSet(old(*v), kw) ? 1 : 0)
+//@   ensures  value-minimum @@ forall f fn :: inCbs(cbs, f, len(cbs)) && old(v.Minimum) != nil ==> lastArg(f, "minimum") == iface(old(v.Minimum))
+//@   ensures  value-maximum @@ forall f fn :: inCbs(cbs, f, len(cbs)) && old(v.Maximum) != nil ==> lastArg(f, "maximum") == iface(old(v.Maximum))
+//@   ensures  value-multipleOf @@ forall f fn :: inCbs(cbs, f, len(cbs)) && old(v.MultipleOf) != nil ==> lastArg(f, "multipleOf") == iface(old(v.MultipleOf))
+//@   ensures  value-exclusiveMaximum @@ forall f fn :: inCbs(cbs, f, len(cbs)) && old(v.ExclusiveMaximum) ==> lastArg(f, "exclusiveMaximum") == iface(old(v.ExclusiveMaximum))
+//@   ensures  value-exclusiveMinimum @@ forall f fn :: inCbs(cbs, f, len(cbs)) && old(v.ExclusiveMinimum) ==> lastArg(f, "exclusiveMinimum") == iface(old(v.ExclusiveMinimum))
+
+//@ define stringWasSet(o CommonValidations, kw string) bool =
+//@    (kw == "pattern" && o.Pattern != "") || (kw == "minLength" && o.MinLength != nil) || (kw == "maxLength" && o.MaxLength != nil)
+
+//@ func (*CommonValidations).ClearStringValidations
+//@   property C20
+//@   requires v != nil
+//@   requires posIdent(cbs)
+//@   requires forall i int :: 0 <= i && i < len(cbs) ==> cbs[i] != nil
+//@   assigns  v.Pattern, v.MinLength, v.MaxLength, ghost(calls)
+//@   ensures  cleared @@ v.Pattern == "" && v.MinLength == nil && v.MaxLength == nil
+//@   ensures  once @@ forall f fn, kw string :: calls(f, kw) == old(calls(f, kw)) + (inCbs(cbs, f, len(cbs)) && stringWasSet(old(*v), kw) ? 1 : 0)
+//@   ensures  value-pattern @@ forall f fn :: inCbs(cbs, f, len(cbs)) && old(v.Pattern) != "" ==> lastArg(f, "pattern") == iface(old(v.Pattern))
+//@   ensures  value-minLength @@ forall f fn :: inCbs(cbs, f, len(cbs)) && old(v.MinLength) != nil ==> lastArg(f, "minLength") == iface(old(v.MinLength))
+//@   ensures  value-maxLength @@ forall f fn :: inCbs(cbs, f, len(cbs)) && old(v.MaxLength) != nil ==> lastArg(f, "maxLength") == iface(old(v.MaxLength))
+
+//@ define arrayWasSet(o CommonValidations, kw string) bool =
+//@    (kw == "maxItems" && o.MaxItems != nil) || (kw == "minItems" && o.MinItems != nil) || (kw == "uniqueItems" && o.UniqueItems)
+
+//@ func (*CommonValidations).ClearArrayValidations
+//@   property C20
+//@   requires v != nil
+//@   requires posIdent(cbs)
+//@   requires forall i int :: 0 <= i && i < len(cbs) ==> cbs[i] != nil
+//@   assigns  v.MaxItems, v.MinItems, v.UniqueItems, ghost(calls)
+//@   ensures  cleared @@ v.MaxItems == nil && v.MinItems == nil && !v.UniqueItems
+//@   ensures  once @@ forall f fn, kw string :: calls(f, kw) == old(calls(f, kw)) + (inCbs(cbs, f, len(cbs)) && arrayWasSet(old(*v), kw) ? 1 : 0)
+//@   ensures  value-maxItems @@ forall f fn :: inCbs(cbs, f, len(cbs)) && old(v.MaxItems) != nil ==> lastArg(f, "maxItems") == iface(old(v.MaxItems))
+//@   ensures  value-minItems @@ forall f fn :: inCbs(cbs, f, len(cbs)) && old(v.MinItems) != nil ==> lastArg(f, "minItems") == iface(old(v.MinItems))
+//@   ensures  value-uniqueItems @@ forall f fn :: inCbs(cbs, f, len(cbs)) && old(v.UniqueItems) ==> lastArg(f, "uniqueItems") == iface(old(v.UniqueItems))
+
+//@ define objectWasSet(o SchemaValidations, kw string) bool =
+//@    (kw == "maxProperties" && o.MaxProperties != nil) || (kw == "minProperties" && o.MinProperties != nil)
+//@    || (kw == "patternProperties" && o.PatternProperties != nil)
+
+//@ func (*SchemaValidations).ClearObjectValidations
+//@   property C20
+//@   requires v != nil
+//@   requires posIdent(cbs)
+//@   requires forall i int :: 0 <= i && i < len(cbs) ==> cbs[i] != nil
+//@   assigns  v.MaxProperties, v.MinProperties, v.PatternProperties, ghost(calls)
+//@   ensures  cleared @@ v.MaxProperties == nil && v.MinProperties == nil && v.PatternProperties == nil
+//@   ensures  once @@ forall f fn, kw string :: calls(f, kw) == old(calls(f, kw)) + (inCbs(cbs, f, len(cbs)) && objectWasSet(old(*v), kw) ? 1 : 0)
+//@   ensures  value-maxProperties @@ forall f fn :: inCbs(cbs, f, len(cbs)) && old(v.MaxProperties) != nil ==> lastArg(f, "maxProperties") == iface(old(v.MaxProperties))
+//@   ensures  value-minProperties @@ forall f fn :: inCbs(cbs, f, len(cbs)) && old(v.MinProperties) != nil ==> lastArg(f, "minProperties") == iface(old(v.MinProperties))
+//@   ensures  value-patternProperties @@ forall f fn :: inCbs(cbs, f, len(cbs)) && old(v.PatternProperties) != nil ==> lastArg(f, "patternProperties") == iface(old(v.PatternProperties))
